@@ -447,11 +447,12 @@ public:
         using co_awaiter<subscriber>::co_awaiter;
 
         operator bool() {
+            //wait() would return co_awaiter's await_resume(), which is the stored
+            //value converted to bool, not the state of the stream
             if (!this->await_ready()) {
-                return this->wait();
-            } else {
-                return this->await_resume();
+                this->sync();
             }
+            return this->await_resume();
         }
         bool await_resume() {
             return this->_owner.check_next();
